@@ -224,6 +224,7 @@ Proof.
   unfold header_field. apply safe_bind; [apply field_head_safe|].
   intros [t v] _. destruct ((kind =? kSQ) && zeqb t tagM5).
   - destruct (negb (h_field lib kind t v)); [exact I|].
+    destruct (32 <? zlen v); [exact I|].
     destruct (16 <? zlen v / 2) eqn:E; [exact I|]. apply Z.ltb_ge in E.
     apply safe_bind; [|intros hb _; destruct (zlen hb =? 16); exact I].
     apply hex_decode_safe; [lia|lia|lia].
@@ -245,7 +246,7 @@ Qed.
 
 Lemma comment_line_safe l : safe (comment_line l).
 Proof.
-  unfold comment_line. destruct (zlen (split_on 9 l) <? 2) eqn:E; [exact I|]. apply Z.ltb_ge in E.
+  unfold comment_line. destruct (zlen (splitn2 9 l) <? 2) eqn:E; [exact I|]. apply Z.ltb_ge in E.
   rewrite chk_true by (apply inb_true; lia). exact I.
 Qed.
 
@@ -295,16 +296,13 @@ Proof.
       rewrite chk_true by (apply inb_true; lia).
       destruct (getz b1 (zlen b1 - 1) =? 13); [|exact I].
       rewrite chk_true by (apply slice_ok_true; lia). exact I.
-    + intros b2 _. destruct (zlen b2 =? 0); exact I.
+    + intros b2 _. exact I.
 Qed.
 
-(** An accepted line is never empty (UnmarshalSAM and the callers index it). *)
-Lemma sam_read_line_nonempty b eof l : sam_read_line b eof = Ok l -> 1 <= zlen l.
+(** An empty line (the reader no longer rejects it itself) fails UnmarshalSAM's field count. *)
+Lemma sam_empty_line_rejected_gen l : zlen l = 0 -> sam_field_count l = Err 1.
 Proof.
-  unfold sam_read_line. intros H.
-  destruct (if eof then if zlen b =? 0 then Err 9 else Ok b else chk (slice_ok b 0 (zlen b - 1)) (Ok (sub b 0 (zlen b - 1)))) as [b1| | |]; simpl in H; try discriminate.
-  destruct (if negb (zlen b1 =? 0) then chk (inb b1 (zlen b1 - 1)) (if getz b1 (zlen b1 - 1) =? 13 then chk (slice_ok b1 0 (zlen b1 - 1)) (Ok (sub b1 0 (zlen b1 - 1))) else Ok b1) else Ok b1) as [b2| | |]; simpl in H; try discriminate.
-  destruct (zlen b2 =? 0) eqn:E; [discriminate|]. inversion H; subst. apply Z.eqb_neq in E. pose proof (zlen_nonneg l). lia.
+  intros H. destruct l; [reflexivity|]. rewrite zlen_cons in H. pose proof (zlen_nonneg l). lia.
 Qed.
 
 Lemma cigar_optype_lookups_total_gen :
